@@ -30,6 +30,25 @@ type C18Res struct {
 }
 
 func pwClass(p string) string {
+	if p != "" && strings.TrimSpace(p) != p {
+		if strings.TrimSpace(p) == "" {
+			return "whitespace-only"
+		}
+		q := "edge-whitespace"
+		if strings.HasPrefix(p, " ") {
+			q += "-leading"
+		}
+		if strings.HasSuffix(p, "\n") {
+			q += "-newline"
+		}
+		for _, r := range p {
+			if r > 127 {
+				q += "-multibyte"
+				break
+			}
+		}
+		return q
+	}
 	switch {
 	case p == "":
 		return "empty"
